@@ -1007,6 +1007,14 @@ def slice_get(it, obj, sl):
 def dict_lookup(it, d, key):
     """index of `key` in dict term d, as Int term (>= 0 found, -1 missing)."""
     keys = Py.keys(d)
+    n = concrete_len(z3.simplify(keys))
+    if n is not None:
+        # a dictionary with a known list of keys: the position is computed, not axiomatised
+        j = S.mk_int(-1) if False else z3.IntVal(-1)
+        ks = z3.simplify(keys)
+        for i in reversed(range(n)):
+            j = z3.If(S.py_eq(z3.simplify(ks[i]), key), z3.IntVal(i), j)
+        return z3.simplify(j)
     j = S.dict_find(keys, key)
     for f in S.dict_find_facts(keys, key, it.index_terms):
         it.assume(f)
